@@ -42,6 +42,10 @@ const MALFORMED: &[(&str, &str, bool)] = &[
     ("version-trailing-dot", "OPENQASM 3.;", false),
     ("version-not-a-number", "OPENQASM x;", false),
     ("version-garbage-suffix", "OPENQASM 3.0x;", false),
+    ("version-major-garbage-suffix", "OPENQASM 3x;", false),
+    ("version-major-comma", "OPENQASM 3,", false),
+    ("version-major-then-string", "OPENQASM 3\"a\";", false),
+    ("version-minor-not-a-number", "OPENQASM 3.x;", false),
     ("ident-with-emoji", "a😀b", false),
     ("ident-emoji-only", "😀", false),
     ("ident-hash", "#foo", false),
@@ -59,6 +63,7 @@ const LEXER_MESSAGES: &[&str] = &[
     "Invalid minor version in OpenQASM version statement",
     "Invalid version number in OpenQASM version statement",
     "Identifier contains invalid characters",
+    "Invalid suffix on string literal",
 ];
 
 fn check_splice(text: &str, span: (usize, usize), class: &str, pos_class: &str, obs: &mut Obs) {
